@@ -1,4 +1,328 @@
+// C06: shared objects used from many simulated client threads: no data race
+// (TSan as happens-before oracle in the par-tsan flavour), no deadlock (the
+// scheduler's enabled set never empties), same answers as a serial execution
+// (each thread's observation log equals the log of the same program run alone
+// on a freshly built shared pool, modulo original-ID renaming).
+#include <set>
+
+#include "execution_impl.h"
+#include "impl.h"
 #include "jobs.h"
+#include "ops.h"
+#include "oracles.h"
+
 namespace vh {
-void register_c06() {}
+namespace {
+
+// ID-insensitive fingerprint: original IDs replaced by their rank within the object.
+std::string fp_idfree(const Manifold& m) {
+  MeshGL64 g = m.GetMeshGL64();
+  std::vector<uint32_t> ids = g.runOriginalID, sorted = ids;
+  std::sort(sorted.begin(), sorted.end());
+  sorted.erase(std::unique(sorted.begin(), sorted.end()), sorted.end());
+  for (auto& x : ids) x = (uint32_t)(std::lower_bound(sorted.begin(), sorted.end(), x) - sorted.begin());
+  g.runOriginalID = ids;
+  std::string s = "M st" + std::to_string((int)m.Status()) + " nv" + std::to_string(m.NumVert()) + " nt" + std::to_string(m.NumTri()) +
+                  " nq" + std::to_string(m.NumProp()) + " g" + std::to_string(m.Genus()) + " orig" + std::to_string(m.OriginalID() >= 0 ? 1 : 0);
+  Box b = m.BoundingBox();
+  s += " bb" + hex(fnv(&b, sizeof b));
+  return s + fp_mesh(g);
+}
+
+struct Shared {
+  Env env;
+  ExecutionContext ctx;
+};
+
+// One observation. `exact` text must match the serial reference exactly;
+// solid-level numbers must agree within rounding (the exact mesh of a lazily
+// evaluated expression legitimately depends on which shared sub-expressions
+// were already forced -- see C03 -- so mesh-level data is not compared).
+struct Entry {
+  std::string op;     // op text
+  std::string exact;  // compared exactly ("" = nothing)
+  std::vector<double> solid;  // compared within tolerance
+  bool cancelled = false;
+};
+
+struct ThreadPlan {
+  std::vector<Op> ops;
+  std::vector<Entry> log;
+  std::vector<std::pair<uint32_t, uint32_t>> reserved;
+  Shared* sh = nullptr;
+  int tid = 0;
+  std::string progressClause;
+};
+
+Entry obs_manifold(const std::string& op, const Manifold& m) {
+  Entry e;
+  e.op = op;
+  auto st = m.Status();
+  if (st == Manifold::Error::Cancelled) {
+    e.cancelled = true;
+    e.exact = (m.IsEmpty() && m.NumTri() == 0) ? "cancelled" : "cancelled:NOT_EMPTY";
+    return e;
+  }
+  e.exact = "st" + std::to_string((int)st) + " nq" + std::to_string(m.NumProp()) + " empty" + std::to_string((int)m.IsEmpty());
+  Box b = m.BoundingBox();
+  e.solid = {m.Volume(), m.SurfaceArea()};
+  if (b.IsFinite())
+    for (int k = 0; k < 3; k++) {
+      e.solid.push_back(b.min[k]);
+      e.solid.push_back(b.max[k]);
+    }
+  (void)m.GetMeshGL64();
+  (void)m.Genus();
+  return e;
+}
+
+Entry query(const std::string& op, const Manifold& m, int g) {
+  Entry e;
+  e.op = op;
+  switch (((g % 10) + 10) % 10) {
+    case 0: e.exact = "status" + std::to_string((int)m.Status()); break;
+    case 1: (void)m.NumTri(); break;
+    case 2: (void)m.NumVert(); break;
+    case 3: e.solid = {m.Volume()}; break;
+    case 4: {
+      Box b = m.BoundingBox();
+      if (b.IsFinite()) e.solid = {b.min.x, b.min.y, b.min.z, b.max.x, b.max.y, b.max.z};
+      break;
+    }
+    case 5: (void)m.GetMeshGL64(); break;
+    case 6: (void)m.Genus(); break;
+    case 7: {
+      e.solid = {m.GetTolerance()};
+      break;
+    }
+    case 8: e.exact = "empty" + std::to_string((int)m.IsEmpty()); break;
+    default: e.solid = {m.SurfaceArea()}; break;
+  }
+  if (m.Status() == Manifold::Error::Cancelled) {
+    e = Entry();
+    e.op = op;
+    e.cancelled = true;
+    e.exact = "cancelled";
+  }
+  return e;
+}
+
+Entry obs_cross(const std::string& op, const CrossSection& c) {
+  Entry e;
+  e.op = op;
+  Rect r = c.Bounds();
+  e.exact = "nc" + std::to_string(c.NumContour());
+  e.solid = {c.Area()};
+  if (r.IsFinite()) {
+    e.solid.push_back(r.min.x);
+    e.solid.push_back(r.min.y);
+    e.solid.push_back(r.max.x);
+    e.solid.push_back(r.max.y);
+  }
+  (void)c.ToPolygons();
+  return e;
+}
+
+Entry xquery(const std::string& op, const CrossSection& c, int g) {
+  Entry e;
+  e.op = op;
+  switch (((g % 5) + 5) % 5) {
+    case 0: (void)c.GetTolerance(); break;  // value depends on whether the lazy transform is materialised (C05's subject)
+    case 1: e.solid = {c.Area()}; break;
+    case 2: (void)c.NumVert(); break;
+    case 3: return obs_cross(op, c);
+    default: {
+      Rect r = c.Bounds();
+      if (r.IsFinite()) e.solid = {r.min.x, r.min.y, r.max.x, r.max.y};
+      break;
+    }
+  }
+  return e;
+}
+
+Entry plain(const std::string& op) {
+  Entry e;
+  e.op = op;
+  return e;
+}
+
+void run_plan(ThreadPlan& tp) {
+  Shared& sh = *tp.sh;
+  const std::vector<Manifold>& SM = sh.env.M;
+  const std::vector<CrossSection>& SX = sh.env.X;
+  auto si = [&](int64_t i) { return (size_t)(((i % (int64_t)SM.size()) + SM.size()) % SM.size()); };
+  auto sxi = [&](int64_t i) { return (size_t)(((i % (int64_t)SX.size()) + SX.size()) % SX.size()); };
+  Env loc;
+  loc.capM = 16;
+  loc.capX = 8;
+  for (auto& op : tp.ops) {
+    const std::string& n = op.name;
+    const std::string ot = op.text();
+    auto A = [&](size_t i, int64_t d = 0) { return op.arg(i, d); };
+    if (n == "sq" && !SM.empty()) {
+      tp.log.push_back(query(ot, SM[si(A(0))], (int)A(1)));
+    } else if (n == "scopy" && !SM.empty()) {
+      Manifold c = SM[si(A(0))];
+      loc.pushM(c);
+      tp.log.push_back(obs_manifold(ot, loc.M.back()));
+    } else if (n == "scopylazy" && !SM.empty()) {
+      Manifold c = SM[si(A(0))];  // copy without forcing
+      loc.pushM(c);
+      tp.log.push_back(plain(ot));
+    } else if (n == "sassign" && !SM.empty()) {
+      if (loc.M.empty()) loc.pushM(Manifold());
+      size_t d = loc.mi(A(1));
+      loc.M[d] = SM[si(A(0))];
+      tp.log.push_back(obs_manifold(ot, loc.M[d]));
+    } else if (n == "sbool" && !SM.empty()) {
+      Manifold r = SM[si(A(1))].Boolean(SM[si(A(2))].Rotate(U(A(3), 5, 80), U(A(4), 5, 80), 13).Translate(vec3(U(A(3), .05, .3), .07, .11)), optype(A(0)));
+      loc.pushM(r);
+      tp.log.push_back(obs_manifold(ot, loc.M.back()));
+    } else if (n == "sxf" && !SM.empty()) {
+      loc.pushM(SM[si(A(0))].Rotate(U(A(1), 0, 360), U(A(2), 0, 360), U(A(3), 0, 360)).Translate(vec3(U(A(1), -.5, .5), 0, 0)));
+      tp.log.push_back(obs_manifold(ot, loc.M.back()));
+    } else if (n == "rid") {
+      uint32_t cnt = 1 + (uint32_t)(((A(0) % 50) + 50) % 50);
+      uint32_t st = Manifold::ReserveIDs(cnt);
+      tp.reserved.push_back({st, cnt});
+      tp.log.push_back(plain(ot));
+    } else if (n == "sxq" && !SX.empty()) {
+      tp.log.push_back(xquery(ot, SX[sxi(A(0))], (int)A(1)));
+    } else if (n == "sxcopy" && !SX.empty()) {
+      CrossSection c = SX[sxi(A(0))];
+      loc.pushX(c);
+      tp.log.push_back(obs_cross(ot, loc.X.back()));
+    } else if (n == "sxbool" && !SX.empty()) {
+      loc.pushX(SX[sxi(A(1))].Boolean(SX[sxi(A(2))].Rotate(U(A(3), 5, 80)).Translate(vec2(.13, .07)), optype(A(0))));
+      tp.log.push_back(obs_cross(ot, loc.X.back()));
+    } else if (n == "sxxf" && !SX.empty()) {
+      loc.pushX(SX[sxi(A(0))].Rotate(U(A(1), 0, 360)).Scale(vec2(U(A(2), .5, 20), U(A(3), .5, 20))));
+      tp.log.push_back(obs_cross(ot, loc.X.back()));
+    } else if (n == "ctxstatus" && !SM.empty()) {
+      Manifold w = SM[si(A(0))].WithContext(sh.ctx);
+      (void)w.Status();
+      tp.log.push_back(obs_manifold(ot, w));
+    } else if (n == "cancel") {
+      sh.ctx.Cancel();
+      Entry e = plain(ot);
+      e.exact = "cancel";
+      tp.log.push_back(e);
+    } else if (n == "poll") {
+      double p = sh.ctx.Progress();
+      (void)sh.ctx.Cancelled();
+      if (!(p >= 0.0 && p <= 1.0) && tp.progressClause.empty()) tp.progressClause = "progress_out_of_range:" + std::to_string(p);
+      tp.log.push_back(plain(ot));
+    } else {
+      // ordinary op on the thread's local pool
+      exec(loc, op);
+      bool any = false;
+      for (auto& p : loc.produced) {
+        tp.log.push_back(p.isX ? obs_cross(ot, loc.X[p.idx]) : obs_manifold(ot, loc.M[p.idx]));
+        any = true;
+      }
+      if (!any) tp.log.push_back(plain(ot + "=" + loc.note));
+      loc.evict(A(0));
+    }
+  }
+}
+
+void thread_entry(void* p) { run_plan(*static_cast<ThreadPlan*>(p)); }
+
+void build_shared(Shared& sh, const std::vector<Op>& setup) {
+  sh.env = Env();
+  sh.env.capM = 64;
+  sh.env.capX = 64;
+  for (auto& op : setup) exec(sh.env, op);
+}
+
+std::string job_c06(const Args& a) {
+  SimSetup s = sim_setup(a);
+  const auto setup = parse_program(a.s("setup"));
+  std::vector<std::vector<Op>> plans;
+  for (auto& t : split(a.s("plans"), '|')) plans.push_back(parse_program(t));
+  const bool compareAlone = a.i("alone", 1);
+  JArr viol;
+  uint64_t logEntries = 0;
+  bool hasCancel = false;
+  for (auto& pl : plans)
+    for (auto& op : pl)
+      if (op.name == "cancel") hasCancel = true;
+  SimOutcome out = run_simulated(s, [&]() {
+    Shared sh;
+    build_shared(sh, setup);
+    std::vector<ThreadPlan> tps(plans.size());
+    for (size_t t = 0; t < plans.size(); t++) {
+      tps[t].ops = plans[t];
+      tps[t].sh = &sh;
+      tps[t].tid = (int)t;
+    }
+    for (auto& tp : tps) sim::client(thread_entry, &tp);
+    sim::join_clients();
+    // (4) reserved ID ranges pairwise disjoint
+    std::vector<std::pair<uint32_t, uint32_t>> all;
+    for (auto& tp : tps)
+      for (auto& r : tp.reserved) all.push_back(r);
+    std::sort(all.begin(), all.end());
+    for (size_t i = 1; i < all.size(); i++)
+      if (all[i - 1].first + all[i - 1].second > all[i].first)
+        viol.raw(JObj().i64("thread", -1).str("clause", "reserved_id_ranges_overlap").done());
+    for (auto& tp : tps) {
+      logEntries += tp.log.size();
+      if (!tp.progressClause.empty()) viol.raw(JObj().i64("thread", tp.tid).str("clause", tp.progressClause).done());
+      for (auto& l : tp.log) {
+        if (l.exact.find(":NOT_EMPTY") != std::string::npos) viol.raw(JObj().i64("thread", tp.tid).str("clause", "cancelled_result_not_empty").done());
+        if (l.cancelled && !hasCancel) viol.raw(JObj().i64("thread", tp.tid).str("clause", "cancelled_without_cancel:" + l.op.substr(0, l.op.find(':'))).done());
+      }
+    }
+    // (3) every thread observes what a serial execution would give
+    if (compareAlone) {
+      for (size_t t = 0; t < plans.size(); t++) {
+        Shared fresh;
+        build_shared(fresh, setup);
+        ThreadPlan alone;
+        alone.sh = &fresh;
+        // the reference run uses a private, never-cancelled context
+        for (auto& op : plans[t])
+          if (op.name != "cancel") alone.ops.push_back(op);
+        run_plan(alone);
+        size_t ia = 0;
+        for (size_t ic = 0; ic < tps[t].log.size(); ic++) {
+          const Entry& lc = tps[t].log[ic];
+          if (lc.exact == "cancel") continue;
+          if (ia >= alone.log.size()) {
+            viol.raw(JObj().i64("thread", (int64_t)t).str("clause", "log_length_differs").done());
+            break;
+          }
+          const Entry& la_ = alone.log[ia++];
+          // Once Cancel() was issued on the shared context, an evaluation that shares in-flight
+          // op nodes with the cancelled one may legitimately report Cancelled (documented poisoning).
+          if (hasCancel && lc.cancelled) continue;
+          std::string opname = lc.op.substr(0, lc.op.find(':'));
+          if (lc.exact != la_.exact) {
+            viol.raw(JObj().i64("thread", (int64_t)t).str("clause", "differs_from_serial:" + opname + ":exact").str("op", lc.op).str("got", lc.exact).str("want", la_.exact).done());
+            break;
+          }
+          bool bad = lc.solid.size() != la_.solid.size();
+          for (size_t q = 0; !bad && q < lc.solid.size(); q++) {
+            double x = lc.solid[q], y = la_.solid[q];
+            if (!(std::abs(x - y) <= 1e-7 * (1 + std::abs(x) + std::abs(y)))) bad = true;
+          }
+          if (bad) {
+            viol.raw(JObj().i64("thread", (int64_t)t).str("clause", "differs_from_serial:" + opname + ":solid").str("op", lc.op).done());
+            break;
+          }
+        }
+      }
+    }
+  });
+  if (out.exception) viol.raw(JObj().i64("thread", -1).str("clause", "exception:" + out.what).done());
+  JObj j;
+  j.i64("threads", (int64_t)plans.size()).u64("log_entries", logEntries).raw("viol", viol.done()).raw("sim", outcome_json(out));
+  return j.done();
+}
+
+}  // namespace
+
+void register_c06() { registry()["c06"] = job_c06; }
+
 }  // namespace vh
